@@ -3,8 +3,13 @@
    (star_frame/src/unsize/wrapper.rs 53-87, account_set/account.rs 123-151,
    pinocchio-0.9.2 account_info.rs 366-460, 517-566).
 
-   The account's value is a generated unsized struct whose fields are `List<u8>` (u32 length
-   prefix), behind an 8-byte account discriminant: the shape the harness instantiates.  The
+   The account's value is a generated unsized struct behind an 8-byte account discriminant, in
+   one of the two shapes the harness instantiates, told apart by the width `lw` of the length
+   prefix in front of every field's bytes (carried in the machine state as `s_lw`):
+     lw = 4: k = 1..3 fields, each a `List<u8>` (u32 length prefix + items);
+     lw = 0: a single `RemainingBytes` field (`#[unsized_start] rest: RemainingBytes`), no prefix
+             at all, so that the body can be EMPTY (data length = exactly the discriminant).
+   The
    byte-level behaviour of the containers is the business of the Unsized model (C01/C02); here
    the value is kept abstractly as the list of its fields' contents and the pointers held by an
    exclusive wrapper are the layout offsets of the fields (that the resize notifications keep
@@ -16,7 +21,7 @@ From SF Require Import Base.Prelude Gen.Generated.
 Definition MAX_INC : Z := MAX_PERMITTED_DATA_INCREASE.
 Definition I32_MAX : Z := 2147483647.
 Definition DISC_W : Z := 8.
-Definition LEN_W : Z := 4.
+Definition U32_W : Z := 4.     (* width of a `List<u8>` length prefix; the other width in use is 0 *)
 Definition U32_MAX : Z := 4294967295.
 
 (* pinocchio's borrow_state byte, abstracted: bit 3 clear <-> h_mut; 7 - (bits 0..2) = h_shr *)
@@ -51,27 +56,29 @@ Definition resize_unchecked (h : hdr) (new_len : Z) : out hdr :=
 (* ---- the account's value and its layout ---- *)
 Definition value := list (list Z).
 
-Definition field_size (f : list Z) : Z := LEN_W + zlen f.
-Definition value_size (v : value) : Z := DISC_W + zsum (map field_size v).
+Definition field_size (lw : Z) (f : list Z) : Z := lw + zlen f.
+Definition value_size (lw : Z) (v : value) : Z := DISC_W + zsum (map (field_size lw) v).
 
-(* offsets (relative to the start of the account data) of the fields' ListPtr *)
-Fixpoint field_offsets_from (base : Z) (v : value) : list Z :=
+(* offsets (relative to the start of the account data) of the fields' ListPtr / RemainingBytesPtr *)
+Fixpoint field_offsets_from (lw : Z) (base : Z) (v : value) : list Z :=
   match v with
   | [] => []
-  | f :: r => base :: field_offsets_from (base + field_size f) r
+  | f :: r => base :: field_offsets_from lw (base + field_size lw f) r
   end.
-Definition field_offsets (v : value) : list Z := field_offsets_from DISC_W v.
+Definition field_offsets (lw : Z) (v : value) : list Z := field_offsets_from lw DISC_W v.
 
-(* UnsizedTypePtr::check_pointers for the generated struct of ListPtr's: every pointer is at or
-   after the cursor (which then moves to it) and inside `range` = [0, range_end) relative to the
-   data start. *)
+(* UnsizedTypePtr::check_pointers for the generated struct of ListPtr's (or its one
+   RemainingBytesPtr): every pointer is at or after the cursor (which then moves to it) and inside
+   `range` = [0, range_end) relative to the data start.  With lw = 0 and an empty body the one
+   pointer sits at DISC_W = the data length, which is inside the range as long as the range is the
+   allocation and not the current data. *)
 Fixpoint check_pointers_from (range_end cursor : Z) (offs : list Z) : bool :=
   match offs with
   | [] => true
   | a :: r => (cursor <=? a) && ((0 <=? a) && (a <? range_end)) && check_pointers_from range_end a r
   end.
-Definition check_pointers (range_end : Z) (v : value) : bool :=
-  check_pointers_from range_end 0 (field_offsets v).
+Definition check_pointers (lw : Z) (range_end : Z) (v : value) : bool :=
+  check_pointers_from range_end 0 (field_offsets lw v).
 
 (* `AccountInfo::data_mut`: the range in which the wrapper's pointers must stay, relative to the
    data start: [0, current_len + MAX - resize_delta).                                         *)
@@ -83,6 +90,7 @@ Record st := mkSt {
   s_val : value;
   s_excl : option Z;   (* live exclusive wrapper: its range end *)
   s_nsh : Z;           (* live shared wrappers held by the program *)
+  s_lw : Z;            (* width of the fields' length prefix: 4 (List<u8>) or 0 (RemainingBytes); never changes *)
 }.
 
 Inductive op :=
@@ -90,14 +98,15 @@ Inductive op :=
 | ORelMut               (* drop the exclusive wrapper *)
 | OBorrowSh             (* Account::data() *)
 | ORelSh                (* drop the most recent shared wrapper *)
-| OPush (i : nat) (n : Z) (b : Z)   (* field i: push_all of n copies of byte b (through the exclusive wrapper) *)
-| ORemove (i : nat) (s e : Z)       (* field i: remove_range(s..e) *)
+| OPush (i : nat) (n : Z) (b : Z)   (* field i: push_all of n copies of byte b (through the exclusive wrapper);
+                                       for the prefix-less field: append n bytes b *)
+| ORemove (i : nat) (s e : Z)       (* field i: remove_range(s..e); for the prefix-less field: that byte range *)
 | ORead.                (* read lengths and checksums of every field through whichever borrow is live *)
 
 (* error codes *)
 Definition E_BORROW : Z := PE_ACCOUNT_BORROW_FAILED.
 
-Definition upd_hdr (s : st) (h : hdr) : st := mkSt h (s_val s) (s_excl s) (s_nsh s).
+Definition upd_hdr (s : st) (h : hdr) : st := mkSt h (s_val s) (s_excl s) (s_nsh s) (s_lw s).
 
 (* observation helpers *)
 Definition checksum (f : list Z) : Z := fold_left (fun a b => (a * 31 + b) mod 65521) f 7.
@@ -109,6 +118,7 @@ Definition SKIP : list Z := [9].
 (* One step: new state and the observation printed for it. *)
 Definition step (s : st) (o : op) : st * list Z :=
   let h := s_hdr s in
+  let lw := s_lw s in
   match o with
   | OBorrowMut =>
       (* the harness never holds two exclusive wrappers; a second request while one is live is
@@ -118,33 +128,33 @@ Definition step (s : st) (o : op) : st * list Z :=
       else if negb (can_borrow_mut_data h) then (s, [1; E_BORROW])   (* try_borrow_mut_data *)
       else
         let h' := set_mut h true in
-        (mkSt h' (s_val s) (Some (data_mut_range_end h)) (s_nsh s), [0])
+        (mkSt h' (s_val s) (Some (data_mut_range_end h)) (s_nsh s) lw, [0])
   | ORelMut =>
       match s_excl s with
       | None => (s, SKIP)
       | Some rend =>
           (* ExclusiveTopDrop::drop asserts check_pointers; then the RefMut is released *)
-          let s' := mkSt (set_mut h false) (s_val s) None (s_nsh s) in
-          if check_pointers rend (s_val s) then (s', [0]) else (s', [2])
+          let s' := mkSt (set_mut h false) (s_val s) None (s_nsh s) lw in
+          if check_pointers lw rend (s_val s) then (s', [0]) else (s', [2])
       end
   | OBorrowSh =>
       if negb (can_borrow_data h) then (s, [1; E_BORROW])
-      else (mkSt (set_shr h (h_shr h + 1)) (s_val s) (s_excl s) (s_nsh s + 1), [0])
+      else (mkSt (set_shr h (h_shr h + 1)) (s_val s) (s_excl s) (s_nsh s + 1) lw, [0])
   | ORelSh =>
       if s_nsh s <=? 0 then (s, SKIP)
-      else (mkSt (set_shr h (h_shr h - 1)) (s_val s) (s_excl s) (s_nsh s - 1), [0])
+      else (mkSt (set_shr h (h_shr h - 1)) (s_val s) (s_excl s) (s_nsh s - 1) lw, [0])
   | OPush i n b =>
       match s_excl s, nth_error (s_val s) i with
       | Some rend, Some f =>
           if n <? 0 then (s, SKIP) else
-          (* List::insert_all: new length must fit the u32 prefix *)
-          if zlen f + n >? U32_MAX then (s, [1; EC_TO_PRIMITIVE_ERROR])
+          (* List::insert_all: new length must fit the u32 prefix; no prefix, no such limit *)
+          if (lw =? U32_W) && (zlen f + n >? U32_MAX) then (s, [1; EC_TO_PRIMITIVE_ERROR])
           (* add_bytes: debug_assert check_pointers, then realloc *)
-          else if negb (check_pointers rend (s_val s)) then (s, [2])
+          else if negb (check_pointers lw rend (s_val s)) then (s, [2])
           else if n =? 0 then (s, [0])
           else
             match resize_unchecked h (h_dlen h + n) with
-            | Ok h' => (mkSt h' (set_nth i (f ++ zrepeat b n) (s_val s)) (s_excl s) (s_nsh s), [0])
+            | Ok h' => (mkSt h' (set_nth i (f ++ zrepeat b n) (s_val s)) (s_excl s) (s_nsh s) lw, [0])
             | Err c => (s, [1; c])
             | _ => (s, [2])
             end
@@ -156,12 +166,12 @@ Definition step (s : st) (o : op) : st * list Z :=
           if (a <? 0) || (e <? 0) then (s, SKIP) else
           if e <? a then (s, [1; EC_INVALID_RANGE])
           else if zlen f <? e then (s, [1; EC_INDEX_OUT_OF_BOUNDS])
-          else if negb (check_pointers rend (s_val s)) then (s, [2])
+          else if negb (check_pointers lw rend (s_val s)) then (s, [2])
           else if e - a =? 0 then (s, [0])
           else
             match resize_unchecked h (h_dlen h - (e - a)) with
             | Ok h' =>
-                (mkSt h' (set_nth i (ztake a f ++ zdrop e f) (s_val s)) (s_excl s) (s_nsh s), [0])
+                (mkSt h' (set_nth i (ztake a f ++ zdrop e f) (s_val s)) (s_excl s) (s_nsh s) lw, [0])
             | Err c => (s, [1; c])
             | _ => (s, [2])
             end
@@ -189,12 +199,14 @@ Fixpoint run (s : st) (ops : list op) : st * list (list Z) :=
       (s2, ob :: obs)
   end.
 
-Definition init_st (v : value) (writable : bool) : st :=
-  mkSt (mkHdr (value_size v) 0 false 0 writable) v None 0.
+Definition init_st (lw : Z) (v : value) (writable : bool) : st :=
+  mkSt (mkHdr (value_size lw v) 0 false 0 writable) v None 0 lw.
 
 (* ---- case decoding for the correspondence runner ---- *)
-(* case := writable :: nfields :: len_0 .. len_{k-1} :: ops ; initial field i holds len_i copies
-   of byte (i+1).  op encodings: 1 BorrowMut | 2 RelMut | 3 BorrowSh | 4 RelSh | 5 i n b Push |
+(* case := writable :: k :: len_0 .. len_{k-1} :: ops ; initial field i holds len_i copies
+   of byte (i+1).  k = 1..3: that many `List<u8>` fields (width 4).  k = 0: the prefix-less account,
+   ONE field of width 0, and ONE length follows (the initial number of body bytes, possibly 0):
+   writable :: 0 :: len_0 :: ops ; field index 0 addresses the single field.  op encodings: 1 BorrowMut | 2 RelMut | 3 BorrowSh | 4 RelSh | 5 i n b Push |
    6 i s e Remove | 7 Read *)
 Fixpoint decode_ops (fuel : nat) (l : list Z) : list op :=
   match fuel with
@@ -221,9 +233,11 @@ Fixpoint init_fields (i : Z) (lens : list Z) : value :=
 Definition run_c07 (input : list Z) : list Z :=
   match input with
   | w :: k :: rest =>
-      let lens := ztake k rest in
-      let ops := decode_ops (length rest) (zdrop k rest) in
-      let s0 := init_st (init_fields 1 lens) (negb (w =? 0)) in
+      let lw := if k =? 0 then 0 else U32_W in
+      let nf := if k =? 0 then 1 else k in
+      let lens := ztake nf rest in
+      let ops := decode_ops (length rest) (zdrop nf rest) in
+      let s0 := init_st lw (init_fields 1 lens) (negb (w =? 0)) in
       let '(s1, obs) := run s0 ops in
       concat (map (fun ob => zlen ob :: ob) obs) ++ [h_dlen (s_hdr s1); h_delta (s_hdr s1)]
   | _ => []
